@@ -232,7 +232,7 @@ static int decide(bool forced, int kind) {
 	if (dflt == 0) return 0;
 	int next = dflt;
 	if (r.fair) {
-		if (forced) next = next_enabled_after(r.cur);
+		if (forced || kind == K_YIELD) next = next_enabled_after(r.cur);
 		else if ((r.steps & 7) == 0) next = next_enabled_after(r.cur);
 		return next ? next : dflt;
 	}
@@ -290,6 +290,13 @@ static void all_blocked() {
 	bool alldone = true;
 	for (int t = 1; t <= r.ntasks; t++) if (r.tasks[t].st != T_DONE) alldone = false;
 	if (alldone) { leave_to_main(); return; }
+	// tasks that finished their plan wait for the closing phase; if everybody else is blocked or
+	// spinning, start the (fair) closing phase now — their closing work may be what the others wait for
+	if (!r.bar_released) {
+		bool any = false;
+		for (int t = 1; t <= r.ntasks; t++) if (r.tasks[t].st == T_ATBAR) { r.tasks[t].st = T_RUN; any = true; }
+		if (any) { r.bar_released = true; r.fair = true; int n = lowest_enabled(); switch_to(n); return; }
+	}
 	// describe
 	char buf[512]; int n = 0;
 	for (int t = 1; t <= r.ntasks && n < 400; t++) {
@@ -681,6 +688,25 @@ void user_atomic_store(void *p, int size, uint64_t v, bool release) {
 	r.hash = mix(r.hash, (off(p) << 8) ^ 0xC2 ^ ((uint64_t)r.cur << 56) ^ v);
 }
 
+uint64_t user_atomic_exchange(void *p, int size, uint64_t v) {
+	Run &r = *R;
+	sched_point(K_ATOMIC);
+	int me = r.cur; Task &t = r.tasks[me];
+	race_access(p, (size_t)size, true, true);
+	Loc &L = get_loc(p, size);
+	StoreRec prev = L.hist.back();
+	if (prev.has_rel) t.clk.join(prev.rel);
+	StoreRec s{}; s.val = v; s.step = r.steps; s.task = (uint8_t)me; s.clk = t.clk.c[me];
+	s.has_rel = true; s.rel = t.clk; if (prev.has_rel) s.rel.join(prev.rel);
+	L.hist.push_back(s);
+	if (L.hist.size() > 8) { L.hist.erase(L.hist.begin()); L.first++; }
+	L.floor[me] = L.first + L.hist.size() - 1;
+	t.clk.c[me]++;
+	mem_put(p, size, v);
+	r.hash = mix(r.hash, (off(p) << 8) ^ 0xC3 ^ ((uint64_t)me << 56) ^ v);
+	return prev.val;
+}
+
 // ------------------------------------------------------------------ SimMutex
 SimMutex::SimMutex() : owner(0), shared(0), n_lock(0), n_unlock(0), n_lock_shared(0), n_unlock_shared(0), reg(0) {
 	clk.clear(); memset(shared_by, 0, sizeof shared_by);
@@ -771,9 +797,9 @@ static void task_entry() {
 	t.opid = -2; t.opkind = -2; t.k = 0; t.ak = 0; spin_reset(t);
 	r.nbar++;
 	if (r.nbar == r.ntasks) {
-		r.fair = true;
+		r.fair = true; r.bar_released = true;
 		for (int u = 1; u <= r.ntasks; u++) if (r.tasks[u].st == T_ATBAR) r.tasks[u].st = T_RUN;
-	} else {
+	} else if (!r.bar_released) {
 		t.st = T_ATBAR;
 		forced_switch();
 	}
